@@ -32,13 +32,13 @@ type Handler struct {
 	Mode string
 	Code uint8
 	// Delay before answering; Started is signalled (non-blocking) when a handler call starts
-	Delay   time.Duration
+	Delay time.Duration
 	// ErrorFromUnit > 0: requests whose unit id is >= ErrorFromUnit are answered with a typed handler error
 	// packet.NewErrorParseTCP(ErrorCodeFor(unit), msg) instead of the device's reply
 	ErrorFromUnit uint8
 	Started       chan struct{}
-	Calls   int
-	Seen    [][]byte
+	Calls         int
+	Seen          [][]byte
 }
 
 // Handle implements server.ModbusHandler.
